@@ -16,6 +16,7 @@ partial def lineLoop (f : String → String) : IO Unit := do
       stdout.flush
     else
       stdout.putStrLn (f l)
+      stdout.flush
     go
   go
 
